@@ -269,6 +269,8 @@ def r6_order(ctx, A, rule="C03.R6"):
             continue
         n += 1
         m = method_name(t["callee"])
+        if m == "extend" and len(t["args"]) == 2 and arg_type(t, 1).startswith("std::option::Option<std::ops::Range<u64>>"):
+            continue        # extend(Option<Range>) appends at most one element at the end: a conditional push
         if m not in allowed:
             ctx.violation(rule, rule + "|%s|%s" % (b["name"], m),
                           "method `%s` on a list of resolved ranges can reorder/drop elements (request order must be preserved)" % m,
